@@ -189,6 +189,64 @@ def moments(args):
     return out
 
 
+HISTS = {"fresh": [], "same_nodes_other_degree_first": ["deg"], "other_nodes_first": ["nodes"], "other_size_first": ["size"],
+         "all_first": ["size", "nodes", "deg"]}
+
+
+def operator_job(job):
+    """The REAL ScaleVariations.compute_raw on a real grid, after other runners of this process computed theirs; columns of every
+    operator against an own quadrature of (P (x) p_l)(x_k) on the runner's own interpolation."""
+    nf, hist = job
+    cards.silence()
+    from yadism import runner as yr
+    from yadism.coefficient_functions import splitting_functions as split
+    from .c01 import oracle_vector
+
+    def mk(xg, deg):
+        th = cards.theory(PTO=2, PTODIS=2, mc=1.5, mb=4.5, mt=170.0, Q0=1.0)
+        ob = cards.obs({"F2_light": [dict(x=0.3, Q2=Q2_NF.get(nf, 1e5))]}, xgrid=xg, deg=deg)
+        return yr.Runner(th, ob)
+
+    xg = cards.make_grid(4, 4, x_min=1e-2)
+    decoy = dict(deg=(xg, 2), nodes=(cards.make_grid(3, 5, x_min=3e-2), 3), size=(cards.make_grid(5, 5, x_min=1e-2), 3))
+    for d in HISTS[hist]:
+        try:
+            mk(*decoy[d]).configs.managers["sv_manager"].compute_raw(nf)
+        except Exception:
+            pass
+    lines = []
+    base = dict(nf=nf, hist=hist, outcome="OK", present=True, finite=True, corner_zero=True, dev_milli=0, note="")
+    try:
+        r = mk(xg, 3)
+        svm = r.configs.managers["sv_manager"]
+        interp = r.configs.managers["interpolator"]
+        svm.compute_raw(nf)
+    except Exception as ex:
+        return [dict(base, label="P_qq_0", col=0, outcome="Crash_" + type(ex).__name__, note=str(ex)[:150])]
+    n = len(xg)
+    for order_labels in split.raw_labels[:2]:
+        for lab, fnc in order_labels.items():
+            M = svm.operators.get((lab, nf))
+            if M is None or np.shape(M) != (n, n):
+                lines.append(dict(base, label=lab, col=0, present=False, note=f"shape {np.shape(M)}"))
+                continue
+            M = np.asarray(M, dtype=float)
+            for k in (1, n // 2, n - 1):
+                ora, oerr = oracle_vector(fnc(nf), interp, xg, xg[k])
+                code = M[:, k].copy()
+                corner = True
+                if k == n - 1:
+                    corner = code[n - 1] == 0.0
+                    code[n - 1] = ora[n - 1] = 0.0
+                scale = max(float(np.abs(code).max()), float(np.abs(ora).max()), 1e-300)
+                tol = 10 * oerr + 5e-6 * scale + 1e-12
+                fin = bool(np.all(np.isfinite(code)))
+                dev = float(np.max(np.abs(code - ora) / tol)) if fin and np.all(np.isfinite(ora)) else float("inf")
+                lines.append(dict(base, label=lab, col=k, finite=fin, corner_zero=bool(corner), dev_milli=common.milli(dev, 1.0),
+                                  note=f"max|code-oracle|={float(np.max(np.abs(code - ora))):.3e} scale={scale:.3e}"))
+    return lines
+
+
 def run(ctx):
     q = ctx.quick
     ctx.cov["rule"] = ("injection obligations = instance x flavour sector x nf x pto x switch combination (x intrinsic) "
@@ -229,6 +287,22 @@ def run(ctx):
         for b in r["bad"]:
             ctx.violation(f"switch:{r['cell'][0]}:{r['cell'][1]}:pto{r['cell'][2]}{':' + r['cell'][3] + str(r['cell'][4]) if len(r['cell']) > 3 else ''}:{b.split(':')[0]}",
                           f"end-to-end switch-off {r['cell']}: {b}", dict(kind="C05-switch", cell=r["cell"]))
+    # (d) the operators behind the factorisation-scale terms on a real grid, whatever ran before in the process
+    ojobs = [(nf, h) for nf in ((4,) if q else (3, 4, 5, 6)) for h in (("fresh", "all_first") if q else sorted(HISTS))]
+    olines = [ln for part in ctx.pmap(operator_job, ojobs, fresh=True) for ln in part]
+    for ln in olines:
+        ln["oid"] = common.oid_of("C05", {k: ln[k] for k in ("label", "nf", "col", "hist")})
+        ctx.count(1, nontrivial_key=("op", ln["label"], ln["nf"], ln["col"], ln["hist"]))
+    obad = ctx.tlc_validate("Trace_C05op", "Trace.cfg", [{k: v for k, v in ln.items() if k != "note"} for ln in olines], name="operators")
+    ogood = [{k: v for k, v in ln.items() if k != "note"} for ln in olines if ln["oid"] not in obad]
+    ctx.selftest("Trace_C05op", "Trace.cfg", ogood, [
+        ("dev", lambda l: dict(l, dev_milli=5000)), ("corner", lambda l: dict(l, corner_zero=False)),
+        ("label", lambda l: dict(l, label="P_xx_9")), ("present", lambda l: dict(l, present=False))])
+    for ln in olines:
+        if ln["oid"] in obad:
+            ctx.violation(f"operator:{ln['label']}:nf{ln['nf']}:col{ln['col']}:{ln['hist']}:{obad[ln['oid']]}",
+                          f"scale-variation operator {ln['label']} nf={ln['nf']} column {ln['col']} (history {ln['hist']}): {obad[ln['oid']]} {ln['note']}",
+                          dict(kind="C05-operator", job=[ln["nf"], ln["hist"]]))
     # (c) moments of the convolved labels
     jobs = [(nf, N) for nf in ((3, 5) if q else (3, 4, 5, 6)) for N in ((2.0, 3.5) if q else (2.0, 3.0, 3.5, 6.0))]
     for rows in ctx.pmap(moments, jobs):
@@ -249,6 +323,15 @@ def replay(ctx, obj):
         r = switch_runs(tuple(obj["cell"]))
         print(r)
         return 1 if r["bad"] else 0
+    if obj["kind"] == "C05-operator":
+        lines = common.pmap(operator_job, [tuple(obj["job"])], fresh=True)[0]
+        for ln in lines:
+            ln["oid"] = common.oid_of("C05", {k: ln[k] for k in ("label", "nf", "col", "hist")})
+        bad = ctx.tlc_validate("Trace_C05op", "Trace.cfg", [{k: v for k, v in ln.items() if k != "note"} for ln in lines], name="operators")
+        for ln in lines:
+            if ln["oid"] in bad:
+                print(ln["label"], ln["col"], bad[ln["oid"]], ln["note"])
+        return 1 if bad else 0
     rows = moments(tuple(obj["job"]))
     print(rows)
     return 0 if all(r["ok"] for r in rows) else 1
